@@ -76,6 +76,31 @@ impl Type {
         }
     }
 
+    /// The type two values have in common when neither can be cast to the other: two records
+    /// (`!if(c, RegA, RegB)`) meet in the first class both derive from, two lists in the list of
+    /// what their elements have in common.
+    pub fn common_typ(&self, symbol_map: &SymbolMap, other: &Type) -> Option<Type> {
+        match (self, other) {
+            (Self::Record(self_record_id, _), Self::Record(other_record_id, _)) => {
+                let class_id = symbol_map
+                    .record(*self_record_id)
+                    .common_class(symbol_map, *other_record_id)?;
+                Some(Self::Record(class_id, symbol_map.record(class_id).name.clone()))
+            }
+            (Self::List(self_elm_typ), Self::List(other_elm_typ)) => {
+                if self_elm_typ.can_be_casted_to(symbol_map, other_elm_typ) {
+                    return Some(other.clone());
+                }
+                if other_elm_typ.can_be_casted_to(symbol_map, self_elm_typ) {
+                    return Some(self.clone());
+                }
+                let elm_typ = self_elm_typ.common_typ(symbol_map, other_elm_typ)?;
+                Some(Self::List(Box::new(elm_typ)))
+            }
+            _ => None,
+        }
+    }
+
     pub fn is_bits(&self) -> bool {
         matches!(self, Self::Bits(_) | Self::Uninitialized)
     }
